@@ -62,6 +62,8 @@ def encode_atom(b: bytes) -> bytes:
         return bytes([0xC0 | (n >> 8), n & 0xFF]) + b
     if n < 0x100000:
         return bytes([0xE0 | (n >> 16), (n >> 8) & 0xFF, n & 0xFF]) + b
+    if n < 0x8000000:
+        return bytes([0xF0 | (n >> 24), (n >> 16) & 0xFF, (n >> 8) & 0xFF, n & 0xFF]) + b
     raise ValueError("atom too long for this encoder")
 
 
@@ -156,6 +158,25 @@ def count_pairs_atoms(nodes):
             stack.append(n[1])
             stack.append(n[2])
     return pairs, len(atoms)
+
+
+def _expand(seed: int, n: int):
+    """deterministic expansion of a generated (seed, n) into n tape words (splitmix64); a pure function of generated values"""
+    out = []
+    x = seed & 0xFFFFFFFFFFFFFFFF
+    for _ in range(n):
+        x = (x + 0x9E3779B97F4A7C15) & 0xFFFFFFFFFFFFFFFF
+        z = x
+        z = ((z ^ (z >> 30)) * 0xBF58476D1CE4E5B9) & 0xFFFFFFFFFFFFFFFF
+        z = ((z ^ (z >> 27)) * 0x94D049BB133111EB) & 0xFFFFFFFFFFFFFFFF
+        z ^= z >> 31
+        out.append(z >> 32)
+    return out
+
+
+# choice tapes for the Rust generators behind the oracle server: a pseudo-random word sequence of generated length and seed
+# (an exhausted tape reads zeros = simplest alternatives, so shrinking the length simplifies the decoded case)
+TAPES = st.tuples(st.integers(0, 2**64 - 1), st.one_of(st.integers(0, 600), st.just(600), st.just(600))).map(lambda t: _expand(t[0], t[1]))
 
 
 # ----------------------------------------------------------------- runner --
